@@ -137,7 +137,10 @@ def operand_intact(spec, shape, all_rational=True):
                 # their large denominators, may be off the edge by that much
                 if not rg.curve_is_exact(g) or abs(ga - wa) > F(1, 10**14) * F(size * size).limit_denominator(10**6):
                     continue
-            elif abs(float(ga) - float(wa)) > 1e-9 * size * size:
+            elif abs(float(ga) - float(wa)) > (1e-9 * size * size if rg.curve_is_polygon(w) else 2.5e-4 * size):
+                # curved operands: short pieces left by a split may be
+                # degree-reduced within the library's 1e-9 squared-L2 tolerance
+                # (deviation <= ~7e-5 along the piece)
                 continue
             # every control vertex of g on w, every vertex of w among g's
             gv = [seg[0] for seg in g]
